@@ -24,7 +24,7 @@ def Label.thread : Label → Own
 
 /-- the operation acquires a mutex (and blocks while the mutex is taken) -/
 def Label.acquires : Label → Bool
-  | .d .lock | .d .relock | .w _ .lockT | .w _ .lock | .s .lockT | .s .lock | .g .lockT => true
+  | .d .lock | .d .relock | .w _ .lockT | .w _ .lockTF | .w _ .lock | .s .lockT | .s .lock | .g .lockT => true
   | _ => false
 
 /-- "thread `t` can perform an operation that acquires nothing" -/
@@ -32,12 +32,14 @@ def RunsOn (s : St) (t : Own) : Prop :=
   ∃ l, l.thread = t ∧ l.acquires = false ∧ l.proper = true ∧ (step s l).isSome = true
 
 theorem w_runs {s : St} {i : Nat} {a : WAct} {p q : WP} (hx : s.exited = none) (hp : s.ws[i]? = some p)
-    (hn : wNext s.g a p (tsAt s i == .canceled) = some q) (h1 : a ≠ .lockT) (h2 : a ≠ .lock) : RunsOn s (.w i) := by
+    (hn : wNext s.g a p (tsAt s i == .canceled) = some q) (h1 : a.locksT = false) (h2 : a ≠ .lock) : RunsOn s (.w i) := by
   refine ⟨.w i a, rfl, ?_, by simp [Label.proper, Label.spurious, Label.isEnv], ?_⟩
-  · cases a <;> simp_all [Label.acquires]
+  · cases a <;> simp_all [Label.acquires, WAct.locksT]
   · rw [step_of_w hx]
     simp only [wStep, hp, hn]
-    rw [if_pos ⟨fun h => absurd h h1, fun h => absurd h h2⟩]; rfl
+    have hg : (a.locksT = true → s.thd = .none) ∧ (a = .lock → s.own = .none) :=
+      ⟨fun h => (by rw [h1] at h; cases h), fun h => absurd h h2⟩
+    rw [if_pos hg]; rfl
 
 theorem s_runs {s : St} {a : SAct} (hx : s.exited = none) (h1 : a ≠ .lockT) (h2 : a ≠ .lock)
     (h : (sStep s a).isSome = true) : RunsOn s .s := by
@@ -53,11 +55,11 @@ theorem thd_holder_runs {s : St} (h : Inv s) (hx : s.exited = none) (hthd : s.th
   | w k =>
     have hh := (h.m.thdW k).mp ho
     cases hp : pc s k <;> rw [hp] at hh <;> simp [holdsT] at hh
-    · exact w_runs (a := .unlockT) hx (getElem?_of_getD' hp (by simp)) (by simp [wNext]; rfl) (by simp) (by simp)
-    · exact w_runs (a := .unlockT) hx (getElem?_of_getD' hp (by simp)) (by simp [wNext]; rfl) (by simp) (by simp)
-    · exact w_runs (a := .time) hx (getElem?_of_getD' hp (by simp)) (by simp [wNext]; rfl) (by simp) (by simp)
-    · exact w_runs (a := .unlockT) hx (getElem?_of_getD' hp (by simp)) (by simp [wNext]; rfl) (by simp) (by simp)
-    · exact w_runs (a := .unlockT) hx (getElem?_of_getD' hp (by simp)) (by simp [wNext]; rfl) (by simp) (by simp)
+    · exact w_runs (a := .unlockT) hx (getElem?_of_getD' hp (by simp)) (by simp [wNext]; rfl) (by simp [WAct.locksT]) (by simp)
+    · exact w_runs (a := .unlockT) hx (getElem?_of_getD' hp (by simp)) (by simp [wNext]; rfl) (by simp [WAct.locksT]) (by simp)
+    · exact w_runs (a := .time) hx (getElem?_of_getD' hp (by simp)) (by simp [wNext]; rfl) (by simp [WAct.locksT]) (by simp)
+    · exact w_runs (a := .unlockT) hx (getElem?_of_getD' hp (by simp)) (by simp [wNext]; rfl) (by simp [WAct.locksT]) (by simp)
+    · exact w_runs (a := .unlockT) hx (getElem?_of_getD' hp (by simp)) (by simp [wNext]; rfl) (by simp [WAct.locksT]) (by simp)
   | g =>
     have hh := h.w.thdG2 ho
     cases hg : s.gpc <;> rw [hg] at hh <;> simp [GPC.holds] at hh
@@ -99,8 +101,8 @@ theorem own_holder_runs {s : St} (h : Inv s) (hx : s.exited = none) (hown : s.ow
   | w k =>
     have hh := (h.m.ownW k).mp ho
     cases hp : pc s k <;> rw [hp] at hh <;> simp [holdsW] at hh
-    · exact w_runs (a := .signal) hx (getElem?_of_getD' hp (by simp)) (by simp [wNext]; rfl) (by simp) (by simp)
-    · exact w_runs (a := .unlock) hx (getElem?_of_getD' hp (by simp)) (by simp [wNext]; rfl) (by simp) (by simp)
+    · exact w_runs (a := .signal) hx (getElem?_of_getD' hp (by simp)) (by simp [wNext]; rfl) (by simp [WAct.locksT]) (by simp)
+    · exact w_runs (a := .unlock) hx (getElem?_of_getD' hp (by simp)) (by simp [wNext]; rfl) (by simp [WAct.locksT]) (by simp)
   | g => exact absurd ho h.w.ownG
   | s =>
     rcases h.m.ownS2 ho with hs | hs
